@@ -236,28 +236,28 @@ theorem reads_rowLines (F : FloatFmt) (hS : FloatSqlOK F) (cols : List ColumnInf
 
 /-! ### column definitions -/
 
-theorem identSp (n : Bytes) (hn : n ≠ []) : Reads anyB (quoteIdent n ++ [32]) [identTok n] := by
-  have := Reads.close (reads_quoteIdent n hn) 32 (by intro c hc; simp at hc; subst hc; decide) sp
+theorem identSp (n : Bytes) (hn : n ≠ []) (h0 : (0 : UInt8) ∉ n) : Reads anyB (quoteIdent n ++ [32]) [identTok n] := by
+  have := Reads.close (reads_quoteIdent n hn h0) 32 (by intro c hc; simp at hc; subst hc; decide) sp
   simpa using this
 
 /-- `    name TYPE` , readable before a comma or a newline -/
-theorem reads_colPiece (c : ColumnInfo) (hn : c.name ≠ []) (ht : TypeTextOK (sqlType c)) :
+theorem reads_colPiece (c : ColumnInfo) (hn : c.name ≠ []) (h0 : (0 : UInt8) ∉ c.name) (ht : TypeTextOK (sqlType c)) :
     Reads wordB (Export.asc "    " ++ quoteIdent c.name ++ 32 :: sqlType c) (colToks c) := by
-  have h1 := Reads.seq spaces4 (identSp c.name hn)
+  have h1 := Reads.seq spaces4 (identSp c.name hn h0)
   have h2 := Reads.append h1 (typeText_reads _ ht).1 (fun _ _ => trivial)
   exact Reads.cast h2 (by simp [List.append_assoc]) (by simp [colToks])
 
 theorem reads_columnLines : ∀ cols : List ColumnInfo, (∀ c ∈ cols, c.name ≠ [] ∧ TypeTextOK (sqlType c)) →
-    Reads anyB (columnLines cols) (joinToks (cols.map colToks))
-  | [], _ => by simp only [columnLines, List.map, joinToks]; exact Reads.nil _
-  | [c], h => by
+    (∀ c ∈ cols, (0 : UInt8) ∉ c.name) → Reads anyB (columnLines cols) (joinToks (cols.map colToks))
+  | [], _, _ => by simp only [columnLines, List.map, joinToks]; exact Reads.nil _
+  | [c], h, h0 => by
     have hc := h c (by simp)
-    have := Reads.close (reads_colPiece c hc.1 hc.2) 10 (by intro d hd; simp at hd; subst hd; decide) nl
+    have := Reads.close (reads_colPiece c hc.1 (h0 c (by simp)) hc.2) 10 (by intro d hd; simp at hd; subst hd; decide) nl
     exact Reads.cast this (by simp [columnLines, sqlType, List.append_assoc]) (by simp [joinToks])
-  | c :: c2 :: rest, h => by
+  | c :: c2 :: rest, h, h0 => by
     have hc := h c (by simp)
-    have ih := reads_columnLines (c2 :: rest) (fun x hx => h x (by simp [hx]))
-    have h1 := Reads.close (reads_colPiece c hc.1 hc.2) 44 (by intro d hd; simp at hd; subst hd; decide) comma
+    have ih := reads_columnLines (c2 :: rest) (fun x hx => h x (by simp [hx])) (fun x hx => h0 x (by simp [hx]))
+    have h1 := Reads.close (reads_colPiece c hc.1 (h0 c (by simp)) hc.2) 44 (by intro d hd; simp at hd; subst hd; decide) comma
     have h2 := Reads.seq h1 (Reads.seq nl ih)
     refine Reads.cast h2 ?_ (by simp [joinToks])
     simp [columnLines, sqlType, List.append_assoc]
@@ -290,21 +290,31 @@ theorem tableComment_noNewline (t : TableDump) : ∀ c ∈ tableComment t, isNew
       omega
   · revert c; decide
 
+theorem tableComment_noNul (t : TableDump) (h0 : (0 : UInt8) ∉ t.name) : (0 : UInt8) ∉ tableComment t := by
+  intro hc
+  simp only [tableComment, List.mem_append] at hc
+  rcases hc with (h | h) | (h | h) | h
+  · exact absurd h (by decide)
+  · exact commentText_noNul t.name h0 h
+  · exact absurd h (by decide)
+  · exact decInt_noNul _ h
+  · exact absurd h (by decide)
+
 theorem kw (up low : String) (h1 : Export.asc up ≠ [] := by decide)
     (h2 : ∀ c, (Export.asc up).head? = some c → isIdentStart c = true := by decide)
     (h3 : ∀ d ∈ Export.asc up, isIdentCont d = true := by decide) (h4 : fold (Export.asc up) = Export.asc low := by decide) :
     Reads anyB (Export.asc up ++ [32]) [.word (Export.asc low)] :=
   kwsp _ _ h1 h2 h3 h4
 
-theorem reads_createHead (t : TableDump) (hn : t.name ≠ []) :
+theorem reads_createHead (t : TableDump) (hn : t.name ≠ []) (h0 : (0 : UInt8) ∉ t.name) :
     Reads anyB (Export.asc "-- Table: " ++ commentText t.name ++ Export.asc " (" ++ decInt t.rowCount ++ Export.asc " rows)\n" ++
       Export.asc "CREATE TABLE IF NOT EXISTS " ++ quoteIdent t.name ++ Export.asc " (\n")
       [.comment (tableComment t), .word (Export.asc "create"), .word (Export.asc "table"), .word (Export.asc "if"),
        .word (Export.asc "not"), .word (Export.asc "exists"), identTok t.name, .op [40]] := by
-  have hc := reads_commentLine (tableComment t) (tableComment_noNewline t)
+  have hc := reads_commentLine (tableComment t) (tableComment_noNewline t) (tableComment_noNul t h0)
   have hk := Reads.seq (kw "CREATE" "create") (Reads.seq (kw "TABLE" "table") (Reads.seq (kw "IF" "if")
     (Reads.seq (kw "NOT" "not") (kw "EXISTS" "exists"))))
-  have hi := Reads.seq (identSp t.name hn) (Reads.seq lpar nl)
+  have hi := Reads.seq (identSp t.name hn h0) (Reads.seq lpar nl)
   have := Reads.seq hc (Reads.seq hk hi)
   refine Reads.cast this ?_ (by simp)
   simp only [tableComment, List.append_assoc, List.cons_append, List.nil_append]
@@ -323,10 +333,10 @@ theorem reads_insertHead (t : TableDump) (ok : TableOK t) :
       ([.word (Export.asc "insert"), .word (Export.asc "into"), identTok t.name, .op [40]] ++
         (joinToks (t.columns.map fun c => [identTok c.name]) ++ [.op [41], .word (Export.asc "values")])) := by
   have hk := Reads.seq (kw "INSERT" "insert") (kw "INTO" "into")
-  have hi := Reads.seq (identSp t.name ok.name) lpar
+  have hi := Reads.seq (identSp t.name ok.name ok.nameNul) lpar
   have hcols := reads_join [44, 32] commaSpace rfl (t.columns.map fun c => (quoteIdent c.name, [identTok c.name]))
     (by intro it hit; simp only [List.mem_map] at hit; obtain ⟨c, hc, rfl⟩ := hit
-        exact (reads_quoteIdent c.name (ok.cols c hc).1).weaken closeB_identB)
+        exact (reads_quoteIdent c.name (ok.cols c hc).1 (ok.colsNul c hc)).weaken closeB_identB)
   simp only [List.map_map] at hcols
   have hclose := Reads.close hcols 41 (by intro c hc; simp at hc; subst hc; right; left; rfl) rpar
   have hvalues := Reads.close (reads_kw (Export.asc "VALUES") (Export.asc "values") (by decide) (by decide) (by decide) (by decide))
@@ -347,10 +357,10 @@ theorem reads_repeat {α} (text : Bytes) (toks : List Tok) (h : Reads anyB text 
     have := Reads.seq h (reads_repeat text toks h xs)
     exact Reads.cast this (by simp) (by simp)
 
-theorem reads_defaultRow (t : TableDump) (hn : t.name ≠ []) :
+theorem reads_defaultRow (t : TableDump) (hn : t.name ≠ []) (h0 : (0 : UInt8) ∉ t.name) :
     Reads anyB (Export.asc "INSERT INTO " ++ quoteIdent t.name ++ Export.asc " DEFAULT VALUES;\n") (defaultRowToks t) := by
   have hk := Reads.seq (kw "INSERT" "insert") (kw "INTO" "into")
-  have hi := identSp t.name hn
+  have hi := identSp t.name hn h0
   have hvalues := Reads.close (reads_kw (Export.asc "VALUES") (Export.asc "values") (by decide) (by decide) (by decide) (by decide))
     59 (by intro c hc; simp at hc; subst hc; decide) semi
   have := Reads.seq hk (Reads.seq hi (Reads.seq (kw "DEFAULT" "default") (Reads.seq hvalues nl)))
@@ -363,8 +373,8 @@ theorem reads_defaultRow (t : TableDump) (hn : t.name ≠ []) :
 /-- TableDump.ToSQL reads as exactly `tableToks`, whatever follows -/
 theorem reads_table (F : FloatFmt) (hS : FloatSqlOK F) (t : TableDump) (ok : TableOK t) :
     Reads anyB (tableToSQL F t) (tableToks F t) := by
-  have hhead := reads_createHead t ok.name
-  have hcols := reads_columnLines t.columns ok.cols
+  have hhead := reads_createHead t ok.name ok.nameNul
+  have hcols := reads_columnLines t.columns ok.cols ok.colsNul
   have hend : Reads anyB (Export.asc ");\n\n") [.op [41], .op [59]] :=
     Reads.cast (Reads.seq rpar (Reads.seq semi (Reads.seq nl nl))) (by decide) (by simp)
   have hins : Reads anyB (insertText F t) (insertToks F t) := by
@@ -374,7 +384,7 @@ theorem reads_table (F : FloatFmt) (hS : FloatSqlOK F) (t : TableDump) (ok : Tab
     · simp only [he, Bool.false_eq_true, if_false]
       by_cases hc : t.columns.isEmpty = true
       · simp only [hc, if_true]
-        exact reads_repeat _ _ (reads_defaultRow t ok.name) t.rows
+        exact reads_repeat _ _ (reads_defaultRow t ok.name ok.nameNul) t.rows
       · simp only [hc, Bool.false_eq_true, if_false]
         have hne : t.rows ≠ [] := by intro h; simp [h] at he
         have h1 := reads_insertHead t ok
